@@ -302,6 +302,9 @@ func (p *c18) Init(tier string) {
 		if f.name == "CHANGETYPE" {
 			p.cases = append(p.cases, c18case{fi, "roundtrip", 0})
 		}
+		if f.name == "ARRAY" {
+			p.cases = append(p.cases, c18case{fi, "literals", 0})
+		}
 	}
 }
 
@@ -312,6 +315,9 @@ func (p *c18) Describe(i int) any {
 	f := &p.fns[c.fn]
 	if c.kind == "contexts" {
 		return map[string]any{"function": "CONSTANT / GETVAR", "kind": "the configured constant / variable is returned in every nested context (derived table, CTE, union branches, subqueries, join side, nested FROM) under every combination of the other options"}
+	}
+	if c.kind == "literals" {
+		return map[string]any{"function": "ARRAY / IF / CONCAT / ENCODE / FIRST / CHANGETYPE", "kind": "arguments written as SQL literals: numeric literals next to string literals spelled the same ('1' and 1), in one query, across rows and across queries of one process"}
 	}
 	if c.kind == "roundtrip" {
 		return map[string]any{"function": f.name, "kind": "string <-> double round-trips for doubles of every magnitude (1e-10 .. 1.5e300, whole numbers at and beyond 2^53 / 2^63, fractions)"}
@@ -488,6 +494,40 @@ func (p *c18) checkCall(r *core.CaseResult, f *c18fn, args []any) {
 	}
 }
 
+// runLiterals: arguments written as literals in the query text (the other cases pass them as
+// columns): a string literal keeps its kind whatever numeric literal of the same spelling was
+// evaluated before it - in the same call, the same query, an earlier row or an earlier query.
+func (p *c18) runLiterals(r *core.CaseResult) {
+	doc := func() map[string]any {
+		return map[string]any{"t": []any{map[string]any{"n": 1.0}, map[string]any{"n": 2.0}, map[string]any{"n": 10.0}}}
+	}
+	three := func(v any) []any { return []any{map[string]any{"v": v}, map[string]any{"v": v}, map[string]any{"v": v}} }
+	cases := []struct {
+		sql  string
+		want []any
+	}{
+		{"SELECT ARRAY(1, '1', 1.5, '1.5', '10', 10) AS v FROM t", three([]any{1.0, "1", 1.5, "1.5", "10", 10.0})},
+		{"SELECT ARRAY('2', 2) AS v FROM t WHERE n > 0", three([]any{"2", 2.0})},
+		{"SELECT IF(n > 0, '1', 0) AS v FROM t WHERE n < 100", three("1")},
+		{"SELECT CONCAT('1', 1, '0', 0) AS v FROM t", three("1100")},
+		{"SELECT FIRST(ARRAY('10', 10)) AS v, n FROM t WHERE n = 10", []any{map[string]any{"v": "10", "n": 10.0}}},
+		{"SELECT DECODE(ENCODE('10', 'hex'), 'hex') AS v FROM t WHERE n < 10", []any{map[string]any{"v": "10"}, map[string]any{"v": "10"}}},
+		{"SELECT CHANGETYPE('1', 'double') AS d, CHANGETYPE(1, 'string') AS s, '1' AS l, 1 AS m FROM t WHERE n = 1", []any{map[string]any{"d": 1.0, "s": "1", "l": "1", "m": 1.0}}},
+		{"SELECT TO_UPPER('1e3') AS v, 1e3 AS m FROM t WHERE n = 1000 OR n = 2", []any{map[string]any{"v": "1E3", "m": 1000.0}}},
+	}
+	for round := 0; round < 2; round++ {
+		for _, c := range cases {
+			o := gq.Run(doc(), c.sql)
+			r.Execs++
+			if got, want := outcome(o), gq.Render(c.want); got != want {
+				r.Fail("C18|literals|kind-changed", fmt.Sprintf("%s (round %d) returned %s (%v), want %s", c.sql, round, got, o.Err, want), map[string]any{"sql": c.sql})
+				return
+			}
+		}
+	}
+	r.Nontrivial = true
+}
+
 // runRoundTrip: CHANGETYPE(v, 'string') of a double is text that reads back as the same double, and
 // CHANGETYPE(that text, 'double') is v - for every magnitude, not only small whole numbers.
 func (p *c18) runRoundTrip(r *core.CaseResult) {
@@ -523,6 +563,10 @@ func (p *c18) RunCase(i int) *core.CaseResult {
 	f := &p.fns[c.fn]
 	if c.kind == "roundtrip" {
 		p.runRoundTrip(r)
+		return r
+	}
+	if c.kind == "literals" {
+		p.runLiterals(r)
 		return r
 	}
 	if c.kind == "arity" {
